@@ -113,3 +113,13 @@ impl From<f64> for Value {
         Value::Number(value)
     }
 }
+
+#[cfg(abasic_verif)]
+impl Value {
+    pub(crate) fn verif_value(&self) -> crate::verif_probe::VerifValue {
+        match self {
+            Value::String(s) => crate::verif_probe::VerifValue::Str(s.to_string()),
+            Value::Number(n) => crate::verif_probe::VerifValue::Num(*n),
+        }
+    }
+}
